@@ -26,6 +26,7 @@ CHECKS = {
     "C14": ("c14", "model_checking"),
     "C15": ("c15", "model_checking"),
     "C16": ("c16", "model_checking"),
+    "C17": ("c17", "model_checking"),
     "C18": ("c18", "model_checking"),
     "C19": ("c19", "model_checking"),
     "C20": ("c20", "model_checking"),
